@@ -679,6 +679,19 @@ class Evaluator:
             if f.attr in ("strip", "lstrip", "rstrip", "upper", "lower", "replace", "removeprefix", "removesuffix") and isinstance(recv, str) and \
                     all(isinstance(a, str) for a in args) and not e.keywords:
                 return getattr(recv, f.attr)(*args)
+            if f.attr == "replace" and isinstance(recv, str) and len(args) == 3 and isinstance(args[0], str) and isinstance(args[1], str) and \
+                    isinstance(args[2], int) and not isinstance(args[2], bool) and not e.keywords:
+                return recv.replace(*args)
+            if f.attr in ("isnumeric", "isdecimal", "isspace", "isidentifier", "isascii") and isinstance(recv, str) and not args:
+                return getattr(recv, f.attr)()
+            if f.attr in ("count", "find", "index", "rfind", "endswith") and isinstance(recv, str) and len(args) == 1 and isinstance(args[0], str) and not e.keywords:
+                try:
+                    return getattr(recv, f.attr)(args[0])
+                except ValueError:
+                    raise Raised("ValueError")
+            if f.attr in ("split", "rsplit", "partition", "rpartition") and isinstance(recv, str) and len(args) == 1 and isinstance(args[0], str) and not e.keywords:
+                r_ = getattr(recv, f.attr)(args[0])
+                return list(r_) if isinstance(r_, list) else tuple(r_)
             if f.attr in ("items", "keys", "values") and isinstance(recv, dict) and not args:
                 return {"items": lambda d: [(k, v) for k, v in d.items()], "keys": lambda d: list(d.keys()), "values": lambda d: list(d.values())}[f.attr](recv)
             if f.attr == "join" and isinstance(recv, str) and len(args) == 1 and isinstance(args[0], (list, tuple)) and all(isinstance(x, str) for x in args[0]):
